@@ -11,8 +11,9 @@ Proof. apply map_app. Qed.
 Lemma shift_length k a : length (shift k a) = length a.
 Proof. apply map_length. Qed.
 
-(** the policy always permits a larger size *)
-Definition PolOk (p : policy) : Prop := forall h c, exists n, p h c = Some n /\ c < n.
+(** the policy always permits a larger size (for capacities >= 1: the built-in
+    policies answer 0 for the impossible capacity 0) *)
+Definition PolOk (p : policy) : Prop := forall h c, 1 <= c -> exists n, p h c = Some n /\ c < n.
 
 (** [Win inp ffuel r off]: the buffer holds the input bytes [off, src position) *)
 Record Win (inp : list byte) (ffuel : nat) (r : fa) (off : nat) : Prop := mkWin {
@@ -166,7 +167,7 @@ Lemma fa_grow_ok r : PolOk (polf r) -> length (buf r) = cap r -> 1 <= cap r ->
     fa_grow r = (set_cap (set_log (set_pol r (polf r) (cap r :: polh r))
                                    (EvGrow (cap r) (Some n) :: log r)) n, GOk).
 Proof.
-  intros Hp Hfull Hc. destruct (Hp (polh r) (cap r)) as (n & Hn & Hlt).
+  intros Hp Hfull Hc. destruct (Hp (polh r) (cap r) Hc) as (n & Hn & Hlt).
   exists n. split; [assumption|]. split; [assumption|].
   unfold fa_grow. rewrite Hn.
   assert ((n <=? cap r) = false) as -> by (apply Nat.leb_gt; lia).
